@@ -306,6 +306,7 @@ func slimObs(o Obs) interface{} {
 		NRecs   int     `json:"nrecs"`
 		Name    string  `json:"name,omitempty"`
 		Weight  int     `json:"weight,omitempty"`
+		Awaits  []AwaitObs `json:"awaits,omitempty"`
 	}
-	return slim{o.Ops, o.Crashed, o.Hung, o.Note, len(o.Recs), o.Name, o.Weight}
+	return slim{o.Ops, o.Crashed, o.Hung, o.Note, len(o.Recs), o.Name, o.Weight, o.Awaits}
 }
